@@ -121,10 +121,15 @@ fn chal<F: VF>(seed: u64, k: u64) -> F {
     F::from_noncanonical_u64(h)
 }
 
+/// The opening point used by `symbolic_bundle` for this seed.
+pub fn zeta_of<F: VF>(seed: u64) -> Ext<F> {
+    ext_of::<F>(chal::<F>(seed, 1), chal::<F>(seed, 2))
+}
+
 /// Fully symbolic proof of the given shape, concrete challenges.
 pub fn symbolic_bundle<F: VF>(sh: &Shape, seed: u64) -> Bundle<F> {
     let params = params_of(sh);
-    let zeta = ext_of::<F>(chal::<F>(seed, 1), chal::<F>(seed, 2));
+    let zeta = zeta_of::<F>(seed);
     let instance = instance_of::<F>(sh, zeta);
     let lde_bits = sh.degree_bits + sh.rate_bits;
     let openings = FriOpenings {
